@@ -46,22 +46,25 @@ Record variant := Variant {
   fix_order : bool;      (* the provider calls of one session reach the provider in the order they were issued *)
   fix_l2stop : bool;     (* the Stop of an l2gw session reads the l2gw stats segment like its Interims *)
   fix_prune : bool;      (* pruning an orphaned accounting entry closes it at the backend with a Stop *)
+  fix_l2tp : bool;       (* handleSessionLifecycle reads state / interface / identity of a PPP-over-L2TP payload too *)
   fix_presend : bool;    (* LastSent is persisted BEFORE the Interim request leaves (not only with its outcome) *)
   fix_ghost : bool       (* a late Accounting-Response - or a checkpoint write that was already on its way - leaves nothing
                             durable for a session released meanwhile (released flag: early return + delete after the write) *)
 }.
 (* V s o l: the first three repairs plus any subset of the later three (the proofs are uniform in s, o, l) *)
-Definition V (s o l p : bool) : variant := Variant true true true s o l p true true.
+Definition V (s o l p : bool) : variant := Variant true true true s o l p true true true.
+(* without fix_l2tp: lifecycle events of access type l2tp are not decoded *)
+Definition Vt (s o l p : bool) : variant := Variant true true true s o l p false true true.
 (* without fix_presend: LastSent reaches the checkpoint only with the outcome of the request *)
-Definition Vq (s o l p : bool) : variant := Variant true true true s o l p false true.
-Definition Vg (s o l p : bool) : variant := Variant true true true s o l p true false.   (* without fix_ghost *)
-Definition head : variant := V true false true true.    (* /repo HEAD *)
+Definition Vq (s o l p : bool) : variant := Variant true true true s o l p true false true.
+Definition Vg (s o l p : bool) : variant := Variant true true true s o l p true true false.   (* without fix_ghost *)
+Definition head : variant := Vt true false true true.   (* /repo HEAD *)
 Definition before_4de5a6b : variant := Vq true false true true.   (* HEAD before LastSent was persisted pre-send *)
 Definition before_5478db8 : variant := Vg true false true true.   (* HEAD before the ghost-checkpoint fix *)
 Definition before_7faf7f9 : variant := V true false true false.   (* HEAD before the stop-on-prune fix *)
 Definition repaired : variant := V true true true true.
 Definition before_9b87063 : variant := V false false false false.   (* HEAD before the sent-floor and l2gw-stop fixes *)
-Definition defective : variant := Variant false false false false false false false false false.   (* the code as first found *)
+Definition defective : variant := Variant false false false false false false false false false false.   (* the code as first found *)
 
 (* AccountingSession: the fields the property depends on *)
 Record sess := Sess {
@@ -306,14 +309,23 @@ Definition project (bk : list N) (j : nat) (g : gev) : option sev :=
 Definition lstep_opt (v : variant) (g : bool) (s : sst) (e : option sev) : sst * list out :=
   match e with Some ev => lstep v g s ev | None => (s, []) end.
 
-(* tys: session j is an l2gw session iff nth j tys = true *)
-Definition is_l2gw (tys : list bool) (j : nat) : bool := nth j tys false.
-Fixpoint gstep_from (v : variant) (bk : list N) (tys : list bool) (j : nat) (g : list sst) (e : gev) : list (sst * list out) :=
+(* tys: access type of session j: 1 = l2gw, 2 = PPP over L2TP (LNS), anything else = IPoE / PPPoE *)
+Definition is_l2gw (tys : list N) (j : nat) : bool := N.eqb (nth j tys 0) 1.
+Definition is_l2tp (tys : list N) (j : nat) : bool := N.eqb (nth j tys 0) 2.
+(* What handleSessionLifecycle makes of a lifecycle event of access type l2tp without fix_l2tp: its switch has no case for
+   *models.PPPoL2TPSession, so state, interface index and identity stay zero - EVERY such event, also one with state
+   released, is an announcement of a session on interface 0 *)
+Definition l2tp_view (v : variant) (t : bool) (ev : sev) : sev :=
+  if t && negb (fix_l2tp v) then
+    match ev with EActive _ _ => EActive 0 0 | EReleased _ => EActive 0 0 | e => e end
+  else ev.
+Fixpoint gstep_from (v : variant) (bk : list N) (tys : list N) (j : nat) (g : list sst) (e : gev) : list (sst * list out) :=
   match g with
   | [] => []
-  | s :: r => lstep_opt v (is_l2gw tys j) s (project bk j e) :: gstep_from v bk tys (S j) r e
+  | s :: r => lstep_opt v (is_l2gw tys j) s (option_map (l2tp_view v (is_l2tp tys j)) (project bk j e))
+              :: gstep_from v bk tys (S j) r e
   end.
-Definition gstep (v : variant) (bk : list N) (tys : list bool) (g : list sst) (e : gev) : list (sst * list out) :=
+Definition gstep (v : variant) (bk : list N) (tys : list N) (g : list sst) (e : gev) : list (sst * list out) :=
   gstep_from v bk tys 0 g e.
 
 (* ------------------------------------------------------------------ *)
